@@ -24,7 +24,7 @@ need(const char *fmt, ...)
 }
 
 #define NS 8
-static struct mhs {
+static __thread struct mhs {
         int used, kind; /* 0 sha1 1 sha256 2 murmur */
         char fam[16];
         gbuf ctx;
@@ -173,7 +173,7 @@ do_mhfin(const cmd *c)
 typedef uint64_t (*scan_fn)(uint32_t *, int, uint64_t *, uint64_t *, uint8_t *, uint8_t *, uint64_t, uint64_t, uint64_t);
 extern uint64_t __real__rolling_hash2_run_until(uint32_t *, int, uint64_t *, uint64_t *, uint8_t *, uint8_t *, uint64_t, uint64_t,
                                                 uint64_t);
-static scan_fn rh_scan;
+static __thread scan_fn rh_scan;
 /* link seam (-Wl,--wrap=_rolling_hash2_run_until): route the inner scan to a chosen implementation */
 uint64_t
 __wrap__rolling_hash2_run_until(uint32_t *idx, int max_idx, uint64_t *t1, uint64_t *t2, uint8_t *b1, uint8_t *b2, uint64_t h,
@@ -182,7 +182,7 @@ __wrap__rolling_hash2_run_until(uint32_t *idx, int max_idx, uint64_t *t1, uint64
         return (rh_scan ? rh_scan : __real__rolling_hash2_run_until)(idx, max_idx, t1, t2, b1, b2, h, mask, trigger);
 }
 
-static struct rhs {
+static __thread struct rhs {
         int used, isal;
         gbuf st;
         void *f_reset, *f_run;
